@@ -87,6 +87,13 @@ def check_monoidal(rep, D, shard):
                                 bdom, bcod, got[1], got[1].dom, got[1].cod), inp)
                 for k in range(len(d) + 1):
                     eq(rep, 'slice', lambda: F(d[:k]) >> F(d[k:]), lambda: img, inp + ' at %d' % k)
+                # reversed slices with bounds: the image of d[i:j:-1] is the dagger of the image of the forward slice
+                for i_ in range(len(d)):
+                    for j_ in [None] + list(range(-1, i_)):
+                        if j_ == -1:
+                            continue        # a stop of -1 means "one before the end" in Python: another slice
+                        lo = 0 if j_ is None else j_ + 1
+                        eq(rep, 'slice.reversed', lambda: F(d[i_:j_:-1]), lambda: F(d[lo:i_ + 1])[::-1], inp + ' [%r:%r:-1]' % (i_, j_))
                 for e in D[:25]:
                     eq(rep, 'tensor', lambda: F(d @ e), lambda: F(d) @ F(e), inp + ' ; %r' % (e,))
                     if d.cod == e.dom:
